@@ -5536,7 +5536,11 @@ fn family_group(f: Family) -> &'static str {
 /// Ask the real UPDATE parser: is an MP_REACH_NLRI of `fam` whose next-hop field is the
 /// one in `mp` (daemon-internal layout [AFI:2][SAFI:1][NH_LEN:1][next hop][reserved:1])
 /// followed by `nlri` an acceptable announcement, and with which next hop?
-fn wire_accepts_mp_reach(fam: Family, mp: &[u8], nlri: &[u8]) -> Result<Option<bgp::Nexthop>, String> {
+fn wire_accepts_mp_reach(
+    fam: Family,
+    mp: &[u8],
+    nlri: &[u8],
+) -> Result<Option<bgp::Nexthop>, String> {
     if mp.len() < 4 {
         return Err("MP_REACH value shorter than AFI/SAFI/next-hop length".into());
     }
@@ -5544,7 +5548,11 @@ fn wire_accepts_mp_reach(fam: Family, mp: &[u8], nlri: &[u8]) -> Result<Option<b
     // reads); AFI/SAFI are the path's family, the reserved octet and the NLRI are ours.
     let nh_len = mp[3] as usize;
     if mp.len() < 4 + nh_len {
-        return Err(format!("next hop truncated: length {} but {} octets follow", nh_len, mp.len() - 4));
+        return Err(format!(
+            "next hop truncated: length {} but {} octets follow",
+            nh_len,
+            mp.len() - 4
+        ));
     }
     let mut v = Vec::new();
     v.extend_from_slice(&fam.afi().to_be_bytes());
@@ -5568,15 +5576,33 @@ fn wire_accepts_mp_reach(fam: Family, mp: &[u8], nlri: &[u8]) -> Result<Option<b
     let mut codec = new_codec(false);
     let parsed = match guard(|| codec.parse_message(&msg)) {
         Err(p) => return Err(format!("parser panics at {}", p.location)),
-        Ok(Err(n)) => return Err(format!("NOTIFICATION {}/{}", n.notification_code(), n.notification_subcode())),
+        Ok(Err(n)) => {
+            return Err(format!(
+                "NOTIFICATION {}/{}",
+                n.notification_code(),
+                n.notification_subcode()
+            ));
+        }
         Ok(Ok(m)) => m,
     };
     let msgs: Vec<bgp::Message> = match packet::validate_message(parsed, false) {
-        Err(n) => return Err(format!("NOTIFICATION {}/{}", n.notification_code(), n.notification_subcode())),
+        Err(n) => {
+            return Err(format!(
+                "NOTIFICATION {}/{}",
+                n.notification_code(),
+                n.notification_subcode()
+            ));
+        }
         Ok(it) => it.collect(),
     };
     for m in msgs {
-        if let bgp::Message::Update(bgp::Update::Reach { family, nexthop, entries, .. }) = m {
+        if let bgp::Message::Update(bgp::Update::Reach {
+            family,
+            nexthop,
+            entries,
+            ..
+        }) = m
+        {
             if family == fam && !entries.is_empty() {
                 return Ok(nexthop);
             }
@@ -5598,27 +5624,62 @@ fn nexthop_forms(fam: Family) -> Vec<(String, Vec<api::Attribute>)> {
         api_unknown(14, 0x80, v)
     };
     let s = |x: &str| x.to_string();
-    let other = if fam == Family::IPV6 { Family::IPV4_VPN } else { Family::IPV6 };
+    let other = if fam == Family::IPV6 {
+        Family::IPV4_VPN
+    } else {
+        Family::IPV6
+    };
     let v4 = [192u8, 0, 2, 1];
     let v6 = "2001:db8::1".parse::<Ipv6Addr>().unwrap().octets();
     let ll = "fe80::1".parse::<Ipv6Addr>().unwrap().octets();
-    let cat = |parts: &[&[u8]]| -> Vec<u8> { parts.iter().flat_map(|p| p.iter().copied()).collect() };
+    let cat =
+        |parts: &[&[u8]]| -> Vec<u8> { parts.iter().flat_map(|p| p.iter().copied()).collect() };
     let mut f: Vec<(String, Vec<api::Attribute>)> = vec![
         (s("none"), vec![]),
         (s("mp/0"), vec![api_mp_reach(Some(fam), vec![])]),
         (s("mp/1-v4"), vec![api_mp_reach(Some(fam), vec![s(NH4)])]),
         (s("mp/1-v6"), vec![api_mp_reach(Some(fam), vec![s(NH6)])]),
-        (s("mp/2-v6+ll"), vec![api_mp_reach(Some(fam), vec![s(NH6), s(NHLL)])]),
-        (s("mp/2-v4+v4"), vec![api_mp_reach(Some(fam), vec![s(NH4), s("192.0.2.2")])]),
-        (s("mp/2-v4+v6"), vec![api_mp_reach(Some(fam), vec![s(NH4), s(NH6)])]),
-        (s("mp/bad-garbage"), vec![api_mp_reach(Some(fam), vec![s("garbage")])]),
-        (s("mp/bad-empty-string"), vec![api_mp_reach(Some(fam), vec![s("")])]),
-        (s("mp/bad-cidr"), vec![api_mp_reach(Some(fam), vec![s("192.0.2.1/32")])]),
-        (s("mp/bad-then-good"), vec![api_mp_reach(Some(fam), vec![s("garbage"), s(NH4)])]),
+        (
+            s("mp/2-v6+ll"),
+            vec![api_mp_reach(Some(fam), vec![s(NH6), s(NHLL)])],
+        ),
+        (
+            s("mp/2-v4+v4"),
+            vec![api_mp_reach(Some(fam), vec![s(NH4), s("192.0.2.2")])],
+        ),
+        (
+            s("mp/2-v4+v6"),
+            vec![api_mp_reach(Some(fam), vec![s(NH4), s(NH6)])],
+        ),
+        (
+            s("mp/bad-garbage"),
+            vec![api_mp_reach(Some(fam), vec![s("garbage")])],
+        ),
+        (
+            s("mp/bad-empty-string"),
+            vec![api_mp_reach(Some(fam), vec![s("")])],
+        ),
+        (
+            s("mp/bad-cidr"),
+            vec![api_mp_reach(Some(fam), vec![s("192.0.2.1/32")])],
+        ),
+        (
+            s("mp/bad-then-good"),
+            vec![api_mp_reach(Some(fam), vec![s("garbage"), s(NH4)])],
+        ),
         (s("mp/family-none"), vec![api_mp_reach(None, vec![s(NH4)])]),
-        (s("mp/inner-flowspec4-0"), vec![api_mp_reach(Some(Family::IPV4_FLOWSPEC), vec![])]),
-        (s("mp/inner-flowspec6vpn-0"), vec![api_mp_reach(Some(Family::IPV6_FLOWSPEC_VPN), vec![])]),
-        (s("mp/inner-other-1"), vec![api_mp_reach(Some(other), vec![s(NH4)])]),
+        (
+            s("mp/inner-flowspec4-0"),
+            vec![api_mp_reach(Some(Family::IPV4_FLOWSPEC), vec![])],
+        ),
+        (
+            s("mp/inner-flowspec6vpn-0"),
+            vec![api_mp_reach(Some(Family::IPV6_FLOWSPEC_VPN), vec![])],
+        ),
+        (
+            s("mp/inner-other-1"),
+            vec![api_mp_reach(Some(other), vec![s(NH4)])],
+        ),
         (s("raw/nhlen0"), vec![raw(&[0, 0])]),
         (s("raw/nhlen0-no-reserved"), vec![raw(&[0])]),
         (s("raw/nhlen0-trailing"), vec![raw(&[0, 0, 1, 2, 3])]),
@@ -5626,11 +5687,20 @@ fn nexthop_forms(fam: Family) -> Vec<(String, Vec<api::Attribute>)> {
         (s("raw/nhlen4"), vec![raw(&cat(&[&[4], &v4, &[0]]))]),
         (s("raw/nhlen4-truncated"), vec![raw(&[4, 192, 0, 0])]),
         (s("raw/nhlen5"), vec![raw(&cat(&[&[5], &v4, &[9, 0]]))]),
-        (s("raw/nhlen12-rd"), vec![raw(&cat(&[&[12], &[0u8; 8], &v4, &[0]]))]),
+        (
+            s("raw/nhlen12-rd"),
+            vec![raw(&cat(&[&[12], &[0u8; 8], &v4, &[0]]))],
+        ),
         (s("raw/nhlen16"), vec![raw(&cat(&[&[16], &v6, &[0]]))]),
-        (s("raw/nhlen24-rd"), vec![raw(&cat(&[&[24], &[0u8; 8], &v6, &[0]]))]),
+        (
+            s("raw/nhlen24-rd"),
+            vec![raw(&cat(&[&[24], &[0u8; 8], &v6, &[0]]))],
+        ),
         (s("raw/nhlen32"), vec![raw(&cat(&[&[32], &v6, &ll, &[0]]))]),
-        (s("raw/nhlen32-ll-zero"), vec![raw(&cat(&[&[32], &v6, &[0u8; 16], &[0]]))]),
+        (
+            s("raw/nhlen32-ll-zero"),
+            vec![raw(&cat(&[&[32], &v6, &[0u8; 16], &[0]]))],
+        ),
         (s("raw/nhlen255"), vec![raw(&cat(&[&[255], &v6, &[0]]))]),
         (s("raw/short"), vec![api_unknown(14, 0x80, vec![0])]),
         (s("raw/empty"), vec![api_unknown(14, 0x80, vec![])]),
@@ -5638,9 +5708,24 @@ fn nexthop_forms(fam: Family) -> Vec<(String, Vec<api::Attribute>)> {
         (s("nh/v6"), vec![api_next_hop(NH6)]),
         (s("nh/empty"), vec![api_next_hop("")]),
         (s("nh/garbage"), vec![api_next_hop("garbage")]),
-        (s("nh-v4+mp/inner-flowspec4-0"), vec![api_next_hop(NH4), api_mp_reach(Some(Family::IPV4_FLOWSPEC), vec![])]),
-        (s("mp/inner-flowspec4-0+nh-v4"), vec![api_mp_reach(Some(Family::IPV4_FLOWSPEC), vec![]), api_next_hop(NH4)]),
-        (s("mp/1-v4+raw/nhlen0"), vec![api_mp_reach(Some(fam), vec![s(NH4)]), raw(&[0, 0])]),
+        (
+            s("nh-v4+mp/inner-flowspec4-0"),
+            vec![
+                api_next_hop(NH4),
+                api_mp_reach(Some(Family::IPV4_FLOWSPEC), vec![]),
+            ],
+        ),
+        (
+            s("mp/inner-flowspec4-0+nh-v4"),
+            vec![
+                api_mp_reach(Some(Family::IPV4_FLOWSPEC), vec![]),
+                api_next_hop(NH4),
+            ],
+        ),
+        (
+            s("mp/1-v4+raw/nhlen0"),
+            vec![api_mp_reach(Some(fam), vec![s(NH4)]), raw(&[0, 0])],
+        ),
     ];
     f.retain(|(_, v)| v.len() <= 2);
     f
@@ -5660,11 +5745,20 @@ fn run_part_c_nexthop(ctx: &mut Ctx, rt: &tokio::runtime::Runtime, r: &mut Rng) 
                     continue;
                 }
                 let mut c = new_codec(false);
-                if let Ok((d, _)) = wire_nlri(&mut c, false, fam, &typed, 0, &gen_nh(fam, r), &base_wattrs(r)) {
+                if let Ok((d, _)) = wire_nlri(
+                    &mut c,
+                    false,
+                    fam,
+                    &typed,
+                    0,
+                    &gen_nh(fam, r),
+                    &base_wattrs(r),
+                ) {
                     if d.entries.len() == 1 {
                         let n = d.entries[0].nlri.clone();
                         if let Ok(m) = guard(|| nlri_to_api(&n)) {
-                            if matches!(guard(|| net_from_api(m.clone(), fam)), Ok(Ok(ref b)) if b == &n) {
+                            if matches!(guard(|| net_from_api(m.clone(), fam)), Ok(Ok(ref b)) if b == &n)
+                            {
                                 found = Some((m, n));
                                 break;
                             }
@@ -5687,7 +5781,12 @@ fn run_part_c_nexthop(ctx: &mut Ctx, rt: &tokio::runtime::Runtime, r: &mut Rng) 
             ctx.rep.count(&format!("c:nexthop-form:{}", label));
             let mut pattrs = vec![api_origin(0)];
             pattrs.extend(carriers.iter().cloned());
-            let path = api::Path { nlri: Some(api_nlri.clone()), pattrs, family: Some(family_to_api(fam)), ..Default::default() };
+            let path = api::Path {
+                nlri: Some(api_nlri.clone()),
+                pattrs,
+                family: Some(family_to_api(fam)),
+                ..Default::default()
+            };
             let desc = trunc(format!("{:?}", path));
             let wit = |extra: Vec<(&str, Json)>| {
                 let mut v = vec![
@@ -5711,7 +5810,8 @@ fn run_part_c_nexthop(ctx: &mut Ctx, rt: &tokio::runtime::Runtime, r: &mut Rng) 
                             Ok(nh) => wire_nexthop = Some(nh),
                             Err(e) => {
                                 if wire_refusal.is_none() {
-                                    wire_refusal = Some((b.get(3).copied().unwrap_or(0) == 0, e, hex(&b)));
+                                    wire_refusal =
+                                        Some((b.get(3).copied().unwrap_or(0) == 0, e, hex(&b)));
                                 }
                             }
                         }
@@ -5789,7 +5889,9 @@ fn run_part_c_nexthop(ctx: &mut Ctx, rt: &tokio::runtime::Runtime, r: &mut Rng) 
                     }
                     if carriers.is_empty() {
                         // no next hop supplied: documented "fill in self on export", not judged
-                        ctx.rep.count("unjudged:path-without-any-next-hop-attribute(self next hop on export)");
+                        ctx.rep.count(
+                            "unjudged:path-without-any-next-hop-attribute(self next hop on export)",
+                        );
                     }
                     // (c) both next hops of a global + link-local pair are shown back
                     if label == "mp/2-v6+ll" {
@@ -5800,12 +5902,15 @@ fn run_part_c_nexthop(ctx: &mut Ctx, rt: &tokio::runtime::Runtime, r: &mut Rng) 
                                 .flat_map(|p| p.pattrs.iter())
                                 .flat_map(|a| match &a.attr {
                                     Some(api::attribute::Attr::MpReach(m)) => m.next_hops.clone(),
-                                    Some(api::attribute::Attr::NextHop(n)) => vec![n.next_hop.clone()],
+                                    Some(api::attribute::Attr::NextHop(n)) => {
+                                        vec![n.next_hop.clone()]
+                                    }
                                     _ => vec![],
                                 })
                                 .collect();
                             ctx.rep.count("c:nexthop:global+link-local-checked");
-                            if !(shown.iter().any(|x| x == NH6) && shown.iter().any(|x| x == NHLL)) {
+                            if !(shown.iter().any(|x| x == NH6) && shown.iter().any(|x| x == NHLL))
+                            {
                                 ctx.rep.violation(
                                     "C17/store-show/mp-families/link-local-nexthop-dropped",
                                     &format!("MP_REACH next_hops [{}, {}] (global + link-local, the form list_path itself shows for a learned path) is listed as {:?}", NH6, NHLL, shown),
@@ -5818,7 +5923,11 @@ fn run_part_c_nexthop(ctx: &mut Ctx, rt: &tokio::runtime::Runtime, r: &mut Rng) 
                     // An IPv4-unicast route with an IPv6 next hop is accepted by the parser as
                     // well (RFC 8950 form); whether it can be sent to a peer depends on the
                     // extended-next-hop capability of that session, which is not this property.
-                    let rfc8950 = fam == Family::IPV4 && matches!(stored_nh, Some(bgp::Nexthop::V6(_)) | Some(bgp::Nexthop::V6LinkLocal(..)));
+                    let rfc8950 = fam == Family::IPV4
+                        && matches!(
+                            stored_nh,
+                            Some(bgp::Nexthop::V6(_)) | Some(bgp::Nexthop::V6LinkLocal(..))
+                        );
                     if rfc8950 {
                         ctx.rep.count("unjudged:ipv4-unicast-with-ipv6-next-hop(export needs RFC 8950 on the session)");
                     }
@@ -5831,7 +5940,19 @@ fn run_part_c_nexthop(ctx: &mut Ctx, rt: &tokio::runtime::Runtime, r: &mut Rng) 
                             let frames = guard(|| {
                                 let mut em = ExportMap::default();
                                 let mut pending = crate::peer_tx::PendingTx::new(false);
-                                process_nlri_change(ch, 1, "198.51.100.9".parse().unwrap(), &mut em, &mut pending, &ectx, None, None, None, None, None);
+                                process_nlri_change(
+                                    ch,
+                                    1,
+                                    "198.51.100.9".parse().unwrap(),
+                                    &mut em,
+                                    &mut pending,
+                                    &ectx,
+                                    None,
+                                    None,
+                                    None,
+                                    None,
+                                    None,
+                                );
                                 let mut out: Vec<Vec<u8>> = Vec::new();
                                 for m in pending.drain_messages(fam) {
                                     let mut c = new_codec(false);
@@ -5857,12 +5978,24 @@ fn run_part_c_nexthop(ctx: &mut Ctx, rt: &tokio::runtime::Runtime, r: &mut Rng) 
                                         for part in split_messages(&buf) {
                                             let mut c = new_codec(false);
                                             match decode_update(&mut c, part) {
-                                                Ok(d) if d.n_err == 0 && d.entries.iter().any(|e| e.nlri == internal) && (d.nexthop.is_some() || is_flowspec(fam)) => {
+                                                Ok(d)
+                                                    if d.n_err == 0
+                                                        && d.entries
+                                                            .iter()
+                                                            .any(|e| e.nlri == internal)
+                                                        && (d.nexthop.is_some()
+                                                            || is_flowspec(fam)) =>
+                                                {
                                                     ctx.rep.count("c:nexthop:exported-and-decoded");
                                                 }
                                                 other => {
                                                     let why = match other {
-                                                        Ok(d) => format!("decoded with {} attribute errors, next hop {:?}, {} NLRIs", d.n_err, d.nexthop, d.entries.len()),
+                                                        Ok(d) => format!(
+                                                            "decoded with {} attribute errors, next hop {:?}, {} NLRIs",
+                                                            d.n_err,
+                                                            d.nexthop,
+                                                            d.entries.len()
+                                                        ),
                                                         Err(e) => e,
                                                     };
                                                     ctx.rep.violation(
@@ -5880,8 +6013,19 @@ fn run_part_c_nexthop(ctx: &mut Ctx, rt: &tokio::runtime::Runtime, r: &mut Rng) 
                     }
                 }
             }
-            let del = guard(|| rt.block_on(async { svc.delete_path(tonic::Request::new(api::DeletePathRequest { uuid, ..Default::default() })).await }));
-            if !healthy || !matches!(del, Ok(Ok(_))) || !svc.tables.collect_loc_rib_paths(fam).is_empty() {
+            let del = guard(|| {
+                rt.block_on(async {
+                    svc.delete_path(tonic::Request::new(api::DeletePathRequest {
+                        uuid,
+                        ..Default::default()
+                    }))
+                    .await
+                })
+            });
+            if !healthy
+                || !matches!(del, Ok(Ok(_)))
+                || !svc.tables.collect_loc_rib_paths(fam).is_empty()
+            {
                 svc = make_service();
             }
         }
